@@ -189,7 +189,10 @@ class Real:
                 # The application does not necessarily keep the device object (`Camera(router=router)` as a statement): the
                 # harness keeps NO reference of its own to devices, it finds them again through the router.
                 if d in self.uni.real_drivers:
-                    drv = driver_class(d)(router=self.router)   # registers itself
+                    # the class declares its name; the constructor is ALSO given one (another one): the name the driver announces in
+                    # every message - driver.name, here the declared one - is the name it has to answer to
+                    drv = driver_class(d)(name="given-to-the-constructor", router=self.router)   # registers itself
+                    assert drv.name == d, drv.name
                     drv._vf_log, drv._vf_id, drv._vf_react = self.log, d, self.react
                     del drv
                 else:
